@@ -130,7 +130,7 @@ def build_app(cfg):
                                   base=classes[spec['base']] if spec.get('base') else None, hooks=spec.get('hooks', 'method'),
                                   static_name=('sh:' + t) if spec.get('hooks') == 'static' else None,
                                   cls_name=('C03' + spec['named_like']) if spec.get('named_like') else None,
-                                  field_eq=bool(spec.get('field_eq')))
+                                  field_eq=bool(spec.get('field_eq')), inst_provides=bool(spec.get('inst_provides')))
     outer, sub, route = instances(cfg)
     one = {}
 
@@ -182,7 +182,7 @@ class C03(Check):
                   'completely and compared, event by event, with a reference interpreter; stacks are sampled by seed.')
     level_note = 'Trusted: the reference onion interpreter (written from the property text, ~90 lines).'
     required_probes = ('unique-value-class-middleware-at-two-levels', 'stack-deeper-than-64', 'three-nested-applications-with-middlewares', 'non-unique-non-reorderable-type-twice', 'two-unique-types-with-one-class-name', 'chain-consumes-every-injectable', 'same-hook-at-two-positions:static', 'same-hook-at-two-positions:one-instance', 'declared-name-provided-further-in', 'declared-name-offered',
-                       'non-response-value-through-layers', 'unique-type-twice-in-route-list', 'subclass-and-base-in-one-stack', 'closure-hooks', 'second-route-without-own-middlewares', 'render-skipped-for-response', 'no-render-layers-ran', 'unique-deduped', 'three-levels',
+                       'non-response-value-through-layers', 'unique-type-twice-in-route-list', 'subclass-and-base-in-one-stack', 'closure-hooks', 'second-route-without-own-middlewares', 'render-skipped-for-response', 'no-render-layers-ran', 'unique-deduped', 'unique-type-instances-provide-different-names', 'three-levels',
                        'swallow-fired', 'double-fault')
 
     def gen_config(self, rng):
@@ -211,6 +211,9 @@ class C03(Check):
                 parent = types[types['T%d' % i]['base']]
                 types['T%d' % i]['phases'] = [ph for ph in PHASES if ph in phases or ph in parent['phases']]
                 types['T%d' % i]['hooks'] = parent['hooks']
+            if u and types['T%d' % i]['hooks'] == 'closure' and 'request' in types['T%d' % i]['phases'] and rng.random() < 0.6:
+                # every instance sets its own `provides` (ScriptRootMiddleware(provided_name=...)): still ONE type
+                types['T%d' % i]['inst_provides'] = True
         keys = sorted(types)
 
         def pick(maxn, banned=()):
@@ -321,6 +324,9 @@ class C03(Check):
         n_inst = len(cfg['outer']) + len(cfg.get('sub') or []) + len(cfg.get('mid') or []) + len(cfg['route'])
         if len(order) < n_inst:
             res.probe('unique-deduped')
+            lv = [(t, l) for l in ('outer', 'sub', 'mid', 'route') for t in (cfg.get(l) or []) if cfg['types'][t].get('inst_provides')]
+            if any(sum(1 for t2, _ in lv if t2 == t) > 1 for t, _ in lv):
+                res.probe('unique-type-instances-provide-different-names')
         if cfg.get('sub') is not None:
             res.probe('three-levels')
         if cfg.get('mid') and cfg.get('sub'):
